@@ -232,6 +232,34 @@ def run(ctx):
                         'the force flag handed to the keep decision (%s) is not the one requested during the operation: it must be '
                         'read before the reset clears it' % (fv.kind if fv is not None else 'n/a'),
                         witness=d.path_to(node, st) if node is not None and (node.id, st.key()) in d.pred else None))
+    # an explicit discard always wins: once discard_recording was called on the active recording nothing is saved
+    badd = None
+    nd = 0
+    for n, s in d.exits:
+        if s.extra.get('discard_requested'):
+            nd += 1
+            if d.n(s, 'iface:TapeCassette.save_recording') or d.n(s, 'iface:TapeCassette.abort_recording') != 1:
+                badd = badd or (n, s)
+    cd.instance('explicit discard always wins: no save and exactly one abort on %d exits after a discard request' % nd, roles.discard.qualname,
+                badd is None and nd > 0)
+    if badd or not nd:
+        n, s = badd if badd else (None, None)
+        res.add(Finding('C17', 'C17.d', 'R-ORDER', roles.discard.file, roles.discard.qualname, roles.discard.node.lineno,
+                        'discard request not honoured',
+                        'discard_recording() was called while a recording was active, yet the scope ends with %s save and %s abort attempts '
+                        '(e.g. recording disabled in between): an explicit discard must always win' % (
+                            d.n(s, 'iface:TapeCassette.save_recording') if s else '?', d.n(s, 'iface:TapeCassette.abort_recording') if s else '?'),
+                        witness=d.path_to(n, s) if n is not None else None, exit=rm.exit_kind(n) if n is not None else None))
+    # forcing is requested by the user's code only: the recorder never forces by itself (e.g. depending on the outcome)
+    internal = [(m, n) for m in roles.cls.methods.values() for n in ast.walk(m.node)
+                if isinstance(n, ast.Call) and _self_attr(n.func) == roles.force.name]
+    writes = [(m, n) for m in roles.cls.methods.values() if m not in (roles.force, roles.reset, roles.init) for n in ast.walk(m.node)
+              if isinstance(n, ast.Assign) and any(_self_attr(t) == roles.force_flag for t in n.targets)]
+    cc.instance('the recorder never requests forcing itself (decision independent of the outcome)', roles.cls.name, not internal and not writes)
+    for m, n in internal + writes:
+        res.add(Finding('C17', 'C17.c', 'R-TAINT', m.file, m.qualname, n.lineno, norm(n),
+                        'the recorder itself forces sampling (in %s): whether a recording is kept then depends on the run (its outcome / content) '
+                        'instead of the rate and the user\'s own requests' % m.qualname))
     # force_sample_recording: writes the flag only under an active recording whose class does not ignore forcing
     for variant in ('idle', 'recording'):
         df = rm.run_method(ctx, roles.force, variant, track_attrs=('ignore_enforced_sampling',))
